@@ -242,6 +242,8 @@ def modelAcc (bs : Bytes) (ws : List String) : Option String :=
   | "seq_raw_value" => some <| onSeq fun s => fmtRes (rawValue s) hex
   | "fmt" => some <| match fmtOf (bs.length + 1) bs with
       | .ok _ => "ok" | .err _ => "e:fmt" | .panic .fuel => "hang" | .panic _ => "panic"
+  | "seq_fmt" => some <| onSeq fun s => match seqFmtOf s with
+      | .ok _ => "ok" | .err _ => "e:fmt" | .panic .fuel => "hang" | .panic _ => "panic"
   | "tlv" => some <| fmtRes (tlvOf bs) fun (t, v) => tagTok t ++ "=" ++ tvalTok v
   | "total_len" => some <| fmtRes (totalLen bs) toString
   | _ => none
